@@ -19,9 +19,10 @@ def plan(tier, ctx):
         j += pair('e1.barrier.round.maxc%d' % mc, [VERIF + '/e1/C12/barrier_e1.c'], 'h_round', unwind=2 * mc + 4, timeout=900 if mc <= 4 else 1500, defines=['MAXC=%d' % mc], required=(mc <= 4),
                   meta={'engine': 'E1 cbmc-src', 'bounds': 'one complete round k < 2^32 of a barrier with count 1..%d: every arrival is a real fiber_barrier_wait call; each early arriver enqueued at once or later; released fibers re-enter round k+1 while the serial fiber is still releasing; <= 2 empty polls' % mc})
     j += fvm.config('C12', 'barrier_step3', 'barrier_step.c', 3, 4, 'sc', srcs=src, spec=fvm.kspec(3), bounds='count 3: one wait call from an arbitrary arrival count (small, around 2^32, around 2^64) with the earlier arrivers of the round queued', timeout=1200)
-    j += fvm.config('C12', 'barrier_2x1', 'barrier.c', 2, 4, 'sc', srcs=src, defines=['NF=2', 'ROUNDS=1'], spec=fvm.kspec(2), bounds='count 2, 1 round', timeout=3000)
     j += fvm.config('C12', 'barrier_1x2', 'barrier.c', 1, 4, 'sc', srcs=src, defines=['NF=1', 'ROUNDS=2'], spec=fvm.kspec(1), bounds='count 1, 2 rounds (every wait is the serial one)', timeout=600)
     if tier == 'thorough':
+        # ~13 min since fix 619b508 (queue selected by a computed index): beyond the budget of an every-change run
+        j += fvm.config('C12', 'barrier_2x1', 'barrier.c', 2, 4, 'sc', srcs=src, defines=['NF=2', 'ROUNDS=1'], spec=fvm.kspec(2), bounds='count 2, 1 round', timeout=3000)
         j += fvm.config('C12', 'barrier_3_phantom', 'barrier.c', 2, 4, 'sc', srcs=src, defines=['NF=2', 'ROUNDS=2', 'PHANTOM'], spec=fvm.kspec(2), bounds='count 3: a third participant has arrived at round 0 but is stalled before enqueuing; fiber 1 re-enters at once (2 waits), fiber 2 waits once', timeout=1500, required=False)
         # since fix 619b508 the queue is selected by a computed index: the TSO run of count 2 went from ~5 min to > 25 min: stretch job now
         j += fvm.config('C12', 'barrier_2x1', 'barrier.c', 2, 4, 'tso', srcs=src, defines=['NF=2', 'ROUNDS=1'], spec=fvm.kspec(2), bounds='count 2, 1 round, x86-TSO', timeout=1500, required=False)
